@@ -33,6 +33,18 @@ MUTANTS = {
     'cumulative-not-cumulative': ("cumulative_areas[triangle_j] = (cumulative_areas[triangle_j - 1] + triangle_area)", "cumulative_areas[triangle_j] = triangle_area"),
     'mean-off-by-one': ("        emissivity /= grid_samples", "        emissivity /= (grid_samples + 1)"),
     'no-winding-normalisation': ("        if not winding2d(self._vertices):\n            self._vertices[:] = self._vertices[::-1]", "        pass"),
+    # the three seeded changes that escaped the first version of the check
+    'seeded-ndarray-fast-path': ("        self._vertices = np.empty((num_vertices, 2))\n        for i, vertex in enumerate(vertices):",
+                                 "        fast = isinstance(vertices, np.ndarray) and vertices.ndim == 2 and vertices.shape[1] == 2\n"
+                                 "        if fast:\n            self._vertices = np.ascontiguousarray(vertices, dtype=np.float64)\n"
+                                 "        else:\n            self._vertices = np.empty((num_vertices, 2))\n"
+                                 "        for i, vertex in enumerate(() if fast else vertices):"),
+    'seeded-total-volume-children': ("        for voxel in self._voxels:\n            total_volume += voxel.volume", "        for voxel in self.children:\n            total_volume += voxel.volume"),
+    'seeded-rectangle-fast-path': ("            sample_point = point_triangle(v1_p, v2_p, v3_p)\n",
+                                   "            sample_point = point_triangle(v1_p, v2_p, v3_p)\n"
+                                   "            if self._has_rectangular_cross_section():\n"
+                                   "                sample_point = new_point3d(minimum(self._vertices[:, 0]) + peak_to_peak(self._vertices[:, 0]) * uniform(), 0.0,\n"
+                                   "                                           minimum(self._vertices[:, 1]) + peak_to_peak(self._vertices[:, 1]) * uniform())\n"),
     'refactor-harmless': ("        return abs(area) / 2", "        return 0.5 * abs(area)"),
 }
 
